@@ -26,7 +26,29 @@ def main():
     def pool(tasks):
         def prog(t, r):
             check.log(f"  {t.name}: {r.get('status')} solver={r.get('solver_s')} wall={r.get('wall_s')} {str(r.get('detail') or '')[:160]}")
-        return run_tasks(tasks, progress=prog)
+        res = run_tasks(tasks, progress=prog)
+        # an undecided query (solver timeout / unknown, usually CPU contention) is retried once with twice the budget and
+        # few competitors before it is reported as inconclusive
+        again = []
+        for t in tasks:
+            r = res.get(t.group)
+            if r is not None and r.get('status') in ('unknown', 'timeout') and not getattr(t, '_retried', False):
+                kw = dict(t.kwargs)
+                for k in ('timeout', 'budget_s'):
+                    if isinstance(kw.get(k), (int, float)):
+                        kw[k] = kw[k] * 2
+                t2 = Task(t.name, t.fn, t.args, kw, timeout=t.timeout * 2, group=t.group, meta=t.meta)
+                t2._retried = True
+                again.append(t2)
+        if again:
+            check.log(f"retrying {len(again)} undecided task(s) with a doubled budget")
+            seen = set()
+            again = [t for t in again if not (t.group in seen or seen.add(t.group))]
+            res2 = run_tasks(again, workers=max(2, (os.cpu_count() or 4) // 2), progress=prog)
+            for g, r in res2.items():
+                if r.get('status') not in ('unknown', 'timeout'):
+                    res[g] = r
+        return res
     try:
         mod.run(check, pool, Task)
     except Exception as e:  # noqa: BLE001
